@@ -34,6 +34,7 @@ def run(ctx):
     # rebuilt trees are the inputs - kinds, children, bounds and flags kept (C19.kinds)
     from . import c19
     c19.rule_kinds(F, R)
+    c19.rule_order(F, R)     # ... and every child stays under its own parent, in order
 
 
 def rule_any(F, R):
